@@ -152,6 +152,20 @@ Proof.
 Qed.
 Print Assumptions child_invalid_refused.
 
+(* a child whose left half 8*zL + kL does not fit 32 bytes is refused with Bip32KeyError as well (since fix 71d2424 of
+   /repo, finding C14-KHOLAW-OVERFLOW; before it the rendering raised OverflowError).  Only a hand-made parent key with
+   kL >= 2^256 - 2^227 gets here: child_formulas above carries kL' < 2^256 for every child that is returned. *)
+Theorem child_out_of_range_refused : forall o n k i, i < 2 ^ 32 ->
+  2 ^ 256 <= kl_of k + 8 * zl28 (kh_z o n k i) ->
+  ckd_priv o (kh_derivator o) n k i = Err (LibError Bip32KeyError).
+Proof.
+  intros o. exact (Lemmas.Bip32Kholaw.ckd_priv_refuses_overflow (hmac512 o) (G o) (gmul o) (gbase o) (g_is_zero o) (penc o)).
+Qed.
+Print Assumptions child_out_of_range_refused.
+Example child_out_of_range_refused_ex : 2 ^ 256 <= kl_of (repeat 255 64) + 8 * zl28 (repeat 255 64).
+Proof. vm_compute. discriminate. Qed.
+Print Assumptions child_out_of_range_refused_ex.
+
 (* a public-only object refuses hardened indices; any object refuses indices outside [0, 2^32) *)
 Theorem hardened_from_public_refused : forall o d n i,
   (n_priv n = None -> (2 ^ 31 <= i < 2 ^ 32)%Z -> child_key o d n i = Err (LibError Bip32KeyError)) /\
